@@ -294,8 +294,16 @@ def _dring(n, rnd):
 
 def _mask(n, rnd):
     B = np.zeros((n, n))
-    a, b = rnd.sample(range(n), 2)
-    B[a, b] = B[b, a] = 1.0
+    for _ in range(rnd.randint(1, 3)):
+        a, b = rnd.sample(range(n), 2)
+        B[a, b] = 1.0
+        if rnd.random() < 0.6:
+            B[b, a] = 1.0  # (a one-sided mask is unusual for an undirected graph, but it is still the caller's array)
+    x = rnd.random()
+    if x < 0.35:
+        return B.astype(bool)
+    if x < 0.5:
+        return B.astype(np.int64)
     return B
 
 
